@@ -30,7 +30,7 @@ REQUIRED_MONITORS = ["ConvexSpheropolygon.area", "ConvexSpheropolygon.signed_are
                      "ConvexSpheropolyhedron.volume", "ConvexSpheropolyhedron.surface_area", "ConvexSpheropolyhedron.mean_curvature",
                      "ConvexPolyhedron.mean_curvature", "ConvexPolyhedron.tau", "ConvexPolyhedron.asphericity", "ConvexPolyhedron.iq",
                      "ConvexPolyhedron.get_dihedral", "r=0:core"]
-REQUIRED_CLASSES = ["radius:0", "radius:>0", "sphero3d", "sphero2d", "convex3d"]
+REQUIRED_CLASSES = ["radius:0", "radius:>0", "sphero3d", "sphero2d", "convex3d", "listing:star-step", "listing:random", "listing:boundary"]
 REL = 1e-9
 _cache = {}
 
@@ -61,7 +61,9 @@ def setup(rec, tier):
 
     # --- spheropolygon -----------------------------------------------------
     def sp2(s):
-        E = geom.poly3d_exact(np.asarray(s.vertices, float), np.asarray(s.normal, float))
+        # the core is the convex polygon spanned by the vertex *set*: A and P do not depend on how the caller listed it
+        # (nor on the order coxeter stores), so the cycle is rebuilt here by sorting about the normal
+        E = geom.poly3d_exact(geom.convex_cycle(np.asarray(s.vertices, float), np.asarray(s.normal, float)), np.asarray(s.normal, float))
         r = float(s.radius)
         return E, r
 
@@ -194,7 +196,17 @@ def run_case(i, rng, rec, tier, state):
     if mode == 0:
         xy = gen.convex_polygon_2d(rng, axis_aligned=bool(rng.random() < 0.2)) * float(np.exp(rng.uniform(-1.5, 1.5)))
         V = np.column_stack((xy, np.zeros(len(xy))))
-        V = V[rng.permutation(len(V))]
+        u = rng.random()
+        star = geom.star_listing(rng, len(V)) if u < 0.25 else None
+        if star is not None:
+            V = V[star] if rng.random() < 0.5 else V[star][::-1]      # every corner turns the same way, yet not the boundary order
+            rec.cls("listing:star-step")
+        elif u < 0.7:
+            V = V[rng.permutation(len(V))]
+            rec.cls("listing:random")
+        else:
+            V = np.roll(V[::-1] if rng.random() < 0.5 else V, int(rng.integers(len(V))), axis=0)
+            rec.cls("listing:boundary")
         tilted = rng.random() < 0.5
         if tilted:
             V = V @ gen.random_rotation(rng).T + rng.uniform(-3, 3, size=3)
